@@ -41,10 +41,10 @@ OnlyConflictsAndUnavailable(run) == \A i \in DOMAIN run.series : run.series[i].o
 (* if any series cannot reach quorum the request fails."                                            *)
 C22Violations(run, n, q) ==
     (IF Acked(run.status) /\ \E i \in DOMAIN run.series : run.series[i].stored < q
-       THEN {"ack-only-when-every-series-stored-on-quorum"} ELSE {})
+       THEN {"ack-only-if-stored-on-quorum"} ELSE {})
     \cup
     (IF Acked(run.status) /\ \E i \in DOMAIN run.series : run.series[i].ok < q
-       THEN {"series-that-cannot-reach-quorum-fails-request"} ELSE {})
+       THEN {"unreachable-quorum-fails-request"} ELSE {})
 
 (* C23: "the client gets 409 Conflict only if conflicts alone make quorum impossible for some      *)
 (* series (retrying cannot help), gets 503 when the failure can still be fixed by retrying, and     *)
@@ -55,13 +55,13 @@ C22Violations(run, n, q) ==
 C23Violations(run, n, q) ==
     LET blocked == \E i \in DOMAIN run.series : BlockedByConflicts(run.series[i], n, q) IN
     (IF run.status = 409 /\ ~blocked
-       THEN {"409-only-when-conflicts-alone-block-quorum"} ELSE {})
+       THEN {"409-only-if-conflicts-block-quorum"} ELSE {})
     \cup
     (IF OnlyConflictsAndUnavailable(run) /\ ~Acked(run.status) /\ ~blocked /\ run.status # 503
        THEN {"retryable-failure-gets-503"} ELSE {})
     \cup
     (IF OnlyConflictsAndUnavailable(run) /\ run.status = 500
-       THEN {"no-500-for-conflicts-and-unavailable"} ELSE {})
+       THEN {"no-500-for-conflict-or-unavailable"} ELSE {})
 
 Min(S) == CHOOSE x \in S : \A y \in S : x <= y
 (* accepted iff some admissible reading of "quorum" has no violated clause *)
